@@ -45,6 +45,8 @@ pub struct CliScn {
     pub world: World,
     /// the extra request settings the invocation's flags (and a named host) amount to
     pub extra: Option<gamedig::protocols::types::ExtraRequestSettings>,
+    /// the timeout settings the invocation's flags amount to (read, write, connect seconds; retries)
+    pub timeouts: Option<(u64, u64, u64, usize)>,
 }
 
 /// Derive the scenario of case `idx` from the tape (used identically by the
@@ -139,6 +141,16 @@ pub fn cli_scenario(idx: u64, t: &mut Tape) -> CliScn {
         }
         extra = Some(e);
     }
+    // timeout flags: one valid invocation in four carries all of them, up to the largest values the
+    // flags accept (the host answers at once: they change nothing but must not break anything)
+    let mut timeouts: Option<(u64, u64, u64, usize)> = None;
+    if invalid_kind.is_none() && t.draw(CFG, 4) == 0 {
+        let secs = |t: &mut Tape| *t.pick(CFG, &[1u64, 4, 3600, u64::MAX]);
+        let (r, w, c) = (secs(t), secs(t), secs(t));
+        let n = *t.pick(CFG, &[0usize, 1, 2, usize::MAX]);
+        args.extend(["--read-timeout".to_string(), r.to_string(), "--write-timeout".to_string(), w.to_string(), "--connect-timeout".to_string(), c.to_string(), "--retries".to_string(), n.to_string()]);
+        timeouts = Some((r, w, c, n));
+    }
     args.extend(["--format".to_string(), format.to_string(), "--output-mode".to_string(), mode.to_string()]);
     let invalid: Option<&'static str> = match invalid_kind {
         None => None,
@@ -190,7 +202,7 @@ pub fn cli_scenario(idx: u64, t: &mut Tape) -> CliScn {
             Some("port-out-of-range")
         }
     };
-    CliScn { game_id, format, mode, port, invalid, tame, args, world, extra }
+    CliScn { game_id, format, mode, port, invalid, tame, args, world, extra, timeouts }
 }
 
 /// Entry point for the clisim child.
@@ -259,7 +271,12 @@ impl Prop for C19 {
         if scn.args.iter().any(|a| a.starts_with("--gather") || a.starts_with("--check-app-id") || a.starts_with("--protocol-version") || a == "--hostname") {
             out.probe("query_option_flags");
         }
-        let call = Call { entry: Entry::Generic { game_id: scn.game_id, extra, level: 2 }, ip: SERVER_IP, port: scn.port, default_port: 0, timeout: None };
+        let timeout = scn.timeouts.map(|(r, w, c, n)| {
+            out.probe("timeout_flags");
+            let d = |s: u64| Some(std::time::Duration::from_secs(s));
+            gamedig::protocols::types::TimeoutSettings::new(d(r), d(w), d(c), n).expect("non-zero timeouts")
+        });
+        let call = Call { entry: Entry::Generic { game_id: scn.game_id, extra, level: 2 }, ip: SERVER_IP, port: scn.port, default_port: 0, timeout };
         let reference = run_call(scn.world, &call);
         out.absorb(&reference.world);
         // ---- the real CLI in its own process
